@@ -67,6 +67,11 @@ func c03ValStmts() []c03ValStmt {
 		{`== .xs[010] 8`, policy.Equal(".xs[010]", literal.Int(8)), func(string, cid.Cid, bool) bool { return false }},
 		{`not(== .xs[-012] 0)`, policy.Not(policy.Equal(".xs[-012]", literal.Int(0))), func(string, cid.Cid, bool) bool { return false }},
 		{`== .xs[007:011] [7]`, policy.Equal(".xs[007:011]", nList(nInt(7))), func(string, cid.Cid, bool) bool { return false }},
+		// two slices in a row, each with its own bounds (xs[1:][:2] = [1, 2]; name[1:][:2] = characters 1 and 2)
+		{`not(== .xs[1:][:2] [1,2])`, policy.Not(policy.Equal(".xs[1:][:2]", nList(nInt(1), nInt(2)))), func(string, cid.Cid, bool) bool { return false }},
+		{`== .xs[1:][:2] [0,1]`, policy.Equal(".xs[1:][:2]", nList(nInt(0), nInt(1))), func(string, cid.Cid, bool) bool { return false }},
+		{`== .xs[:-1][1:] [1..11]`, policy.Equal(".xs[:-1][10:]", nList(nInt(10), nInt(11))), func(string, cid.Cid, bool) bool { return false }},
+		{`== .name[1:][:2] "af"`, policy.Equal(".name[1:][:2]", literal.String("af")), func(s string, _ cid.Cid, _ bool) bool { return runeSlice(runeSlice(s, 1, big), 0, 2) == "af" }},
 		// a key that is PRESENT with the value null is not an absent key (m = {role: null, tags: [null]})
 		{`== .m.role? "guest"`, policy.Equal(".m.role?", literal.String("guest")), func(string, cid.Cid, bool) bool { return false }},
 		{`not(== .m.role? null)`, policy.Not(policy.Equal(".m.role?", literal.Null())), func(string, cid.Cid, bool) bool { return false }},
@@ -99,7 +104,7 @@ func c03ValuesSub(dir string) *engine.Sub {
 		{"link(json,h0)", cid.NewCidV1(cid.DagJSON, cidPool[0].Hash()), true}, {"link(cbor,h1)", cidPool[1], true}, {"string-of-the-cid", cidPool[0], false}}
 	return &engine.Sub{
 		Name: name,
-		Rule: "chains whose policy holds one of " + fmt.Sprint(len(stmts)) + " statements - a link pinned with == (bare, negated, under any) and conditions on character slices of a string with negative bounds, on list indexes written with leading zeros (decimal), and on a key that is present with the value null (not absent) - on the leaf, the root or a single link; arguments: k (and the one-element list ks) = the pinned link, the same digest under raw / dag-json codec or CIDv0, another digest, or the CID's text; name = 10 strings with characters of 1 - 4 bytes; both APIs, delegations in memory and sealed + decoded; reference = CID identity / slices by character, independent of the real Match; non-trivial = all",
+		Rule: "chains whose policy holds one of " + fmt.Sprint(len(stmts)) + " statements - a link pinned with == (bare, negated, under any) and conditions on character slices of a string with negative bounds, on list indexes written with leading zeros (decimal), on two slices in a row with different bounds, and on a key that is present with the value null (not absent) - on the leaf, the root or a single link; arguments: k (and the one-element list ks) = the pinned link, the same digest under raw / dag-json codec or CIDv0, another digest, or the CID's text; name = 10 strings with characters of 1 - 4 bytes; both APIs, delegations in memory and sealed + decoded; reference = CID identity / slices by character, independent of the real Match; non-trivial = all",
 		Bound: func(string) string {
 			return fmt.Sprintf("%d statements x 3 placements x %d links x %d strings x 2 APIs x 2 token forms", len(stmts), len(links), len(names))
 		},
